@@ -1017,6 +1017,29 @@ def r12(ctx):
                     f'bracket text, metadata text) = {want}', init.loc())
 
 
+def r13(ctx):
+    """list level on read: every parsed line becomes exactly one region, in file order; the one notation that is skipped
+    (an elliptical multi-annulus) is skipped without touching its neighbours."""
+    from ..vg import sym
+    m = ctx.model
+    SL, SH = m.cls('_ShapeList'), m.cls('_Shape')
+    f = method_or_fail(ctx, SL, 'to_regions')
+    conv = method_or_fail(ctx, SH, 'to_region')
+    kinds = (('circle', 3), ('ellipse', 7), ('rectangle', 5), ('polygon', 6), ('ellipse', 5))
+    shapes = [Obj('_Shape', {'region_type': Const(t), 'coord': Tup(tuple(sym(f'c{i}_{k}') for k in range(n)), 'list')},
+                  f's{i}', SH) for i, (t, n) in enumerate(kinds)]
+    ev = Evaluator(m, hooks={conv.qualname: lambda e, a, k: Obj('Region', {}, 'region of ' + a[0].path)})
+    out = ev.run(f, [Obj('_ShapeList', {'__items__': Tup(tuple(shapes), 'list')}, 'self', SL)], {})
+    got = [show(v, 300) for _, v in out.returns]
+    want = '[region of s0, region of s2, region of s3, region of s4]'
+    if len(got) == 1 and got[0] == want and not out.raises:
+        ctx.ok('_ShapeList.to_regions', 'one region per shape in order; the elliptical multi-annulus alone is skipped')
+    else:
+        ctx.bad('_ShapeList.to_regions', 'list-assembly',
+                f'five parsed shapes (circle, 7-value ellipse, rectangle, polygon, ellipse) become {got} (raises '
+                f'{sorted({n for _, n, _ in out.raises})}); expected {want}', f.loc())
+
+
 RULES = [
     RuleDef('R1', 'frame tables mutually inverse', r1, 8),
     RuleDef('R2', 'shape vocabulary: class -> type -> token -> class; text written', r2, 17),
@@ -1029,5 +1052,6 @@ RULES = [
     RuleDef('R10', 'list-valued metadata keys are written in the bracket form the reader splits', r10, 3),
     RuleDef('R11', 'coordinate and length token lexers (one probe token per dispatch branch)', r11, 2),
     RuleDef('R12', 'document level: global defaults, comments, ann/include prefixes, errors (probe documents)', r12, 8),
+    RuleDef('R13', 'parsed shapes -> regions: one each, in order', r13, 1),
     RuleDef('R9', 'label and text values: written quoting is what the line/metadata regexes lex; bound to the region', r9, 4),
 ]
